@@ -131,6 +131,15 @@ add("C12", "univ", "exploration",
     "Trusts go/types positions and the harness's layout renderer; comment lines are non-empty and blank-trimmed; function-local declarations are not covered.",
     "DESIGN.md section 3, C12")
 
+add("C14", "univ", "exploration",
+    "property-based testing (rapid) over a grammar of functions plus a corpus sweep of /repo's closure, each function checked by ResultsOf in a supervised child process; literal-only functions against a table of known constant values",
+    "Generated two-package modules exercise recursion through every result index, named results, bare returns, multi-value forwarding, method/interface/cross-package "
+    "calls and closure arguments with fewer/equal/more results; every function of the module, and every one of the ~11,600 functions, methods and interface methods of "
+    "/repo's dependency closure, is checked in a child process (crash or stack overflow = violation, timeout = inconclusive): declared count, n non-empty lists, each "
+    "alternative a constant or a type assignable to the declared result, same answer twice; literal-only functions must yield exactly the harness's values in source order.",
+    "Trusts go/types.AssignableTo and go/constant; one hand-built known finding (unnamed intermediate slice) is replayed and reported as KNOWN-FINDING.",
+    "DESIGN.md section 3, C14")
+
 ALL = ["C%02d" % i for i in range(1, 21)]
 
 def main():
